@@ -66,6 +66,11 @@ func VerifC08_H2FrameArbitrary() {
 		}
 		verif.Cover("again")
 	case err != nil:
+		if _, isStream := err.(StreamError); isStream {
+			// the stream layer resets that stream and keeps the connection: the frame must be gone
+			verif.Assert(rb.Len() <= before-9-announced, "a frame refused with a stream error (the connection stays open) is left in the read buffer: every later read re-parses it and no later frame of the connection is handled")
+			verif.Cover("stream-error")
+		}
 		verif.Cover("error")
 	default:
 		verif.Assert(f != nil, "no error and no frame")
